@@ -1,0 +1,14 @@
+//go:build verif
+
+// Contracts for package output, read by /verif/bin/gvc (contract-based deductive verification).
+// This file contains comments only; it is compiled only under the build tag "verif".
+package output
+
+// Interface contract (assumed for every implementation): wrapping allocates the per-command writers; the
+// returned closer flushes them into the shared streams.
+//@ fnspec closeFunc
+//@   modifies bytes.*, github.com/go-task/task/v3/internal/output.*
+//@ func (Output).WrapWriter
+//@   trusted
+//@   pure allocates
+//@   result 2 fnspec closeFunc
